@@ -769,7 +769,13 @@ class Effect(DaeObject):
                 if value is None:
                     continue
                 shadnode.append(getPropNode(prop, value))
-            tecnode.append(shadnode)
+            # the shader precedes any <extra> of the technique
+            loc = len(tecnode)
+            for i, child in enumerate(tecnode):
+                if child.tag == tag('extra'):
+                    loc = i
+                    break
+            tecnode.insert(loc, shadnode)
         else:
             for prop in self.supported:
                 value = getattr(self, prop)
